@@ -755,3 +755,122 @@ Theorem C01_tie_header_from :
     Src3h.ArchiveHeader_from S s = HeaderStream.read_header_s S Src3h.BINCODE_MAX_DESERIALIZE s.
 Proof. exact SrcTie3Header.header_from_src. Qed.
 Print Assumptions C01_tie_header_from.
+(* ================= work package `carry2`: END TO END, generated code on both sides AND in every layer reader =================
+   Writer: the block stream is what the TRANSLATED ArchiveWriter (gen/Src2.v, src_wrun) left in its destination; the
+   two layer writers below it are the MODEL's (Archive.lower_write: compression writer, then encryption writer, ANY cuts
+   of the stream between the layers) — the translated layer writers exist call by call (C11_tie_cw_write_sim,
+   C11_tie_cw_finalize_src, C01_tie_ew_write_src) but are not folded over the pieces here.
+   Reader: behind ANY source refining a cursor over header ++ body (short reads), standing behind the header:
+   the TRANSLATED RawLayerReader::new + reset_position, EncryptionLayerReader::new, CompressionLayerReader::new and
+   initialize (Carry2Stack.stack_open_src) open the TRANSLATED stack; over it the TRANSLATED ArchiveFooter::
+   deserialize_from (+ rewind) opens the archive, the TRANSLATED list_files returns exactly the started names once each,
+   names never started are absent, and for every started file the TRANSLATED get_hash returns H of the bytes given, the
+   TRANSLATED get_file their count, and the TRANSLATED BlocksToFileReader::read with ANY positive buffer sizes exactly
+   those bytes in order, ending in Finish.  theories/Carry2Archive.v: C01_roundtrip_src composed with
+   C11_stack_refines_src / C11_stack_open_src and ArchiveProofs.lower_write_ok; nothing reproved.
+   Not covered (as in C01_roundtrip_src / C01_archive_roundtrip): the header and the ECIES key unwrap are not in this
+   statement (the source stands behind the header; key and nonce are the cfg's), ArchiveFileBlock::from and bincode's
+   layouts are the trusted links of the translations. *)
+From MLA Require Carry2Stack Carry2Archive.
+Theorem C01_archive_roundtrip_src :
+  forall CHUNK TAG CIPHERBUF BLOCK LIMIT FNMAX TS TC TA TE (H : bytes -> bytes) (order : footer -> footer)
+         (ksf : bytes -> bytes -> N -> N -> N) (tagf : bytes -> bytes -> N -> bytes -> bytes) (dec : bytes -> bytes),
+  0 < CHUNK -> 0 < TAG -> 0 < CIPHERBUF -> CHUNK + TAG <= 2 ^ 31 -> 0 < BLOCK -> BLOCK < 2 ^ 32 ->
+  tags_distinct TS TC TA TE -> (forall x, len (H x) = 32) -> (forall f, Permutation (order f) f) ->
+  forall cfg : wconfig, wc_compress cfg = true -> wc_encrypt cfg = true -> (forall x, dec (wc_comp cfg x) = x) ->
+  (forall i c, len (tagf (wc_key cfg) (wc_nonce cfg) i c) = TAG) ->
+  forall ops (sf : Src2.ArchiveWriter) rs,
+  src_wrun (LIM := Src3d.BINCODE_MAX_DESERIALIZE) FNMAX TS TC TA TE H order aw0 (ops ++ [OFinalize]) = (sf, rs) ->
+  Forall (fun r => is_ok r = true) rs -> forallb op_utf8 ops = true ->
+  len (ser_footer_map (order (w_footer (absW sf)))) < 2 ^ 32 ->
+  let blocks := Src2.dest sf in
+  let nb := nblocks BLOCK (len blocks) in
+  let ks := ksf (wc_key cfg) (wc_nonce cfg) in
+  let tagc := tagf (wc_key cfg) (wc_nonce cfg) in
+  12 + 4 * nb <= LIMIT /\ 12 + 4 * nb < 2 ^ 32 -> len blocks < 2 ^ 63 ->
+  nfull CHUNK (len (comp_format BLOCK (wc_comp cfg) blocks)) + 2 < 2 ^ 32 ->
+  (forall j, j < nb -> len (wc_comp cfg (block_at BLOCK blocks j)) < 2 ^ 32) ->
+  forall (cut_top cut_mid : list N) (header : bytes) (site_index site_enc site_c1 site_c2 site_c3 : N) (fuel_enc : nat),
+  exists body,
+    lower_write CHUNK CIPHERBUF BLOCK LIMIT ksf tagf cfg cut_top cut_mid blocks = Ok body /\
+    forall (S : Stream) (Rin : st S -> N -> Prop),
+      len (header ++ body) < 2 ^ 64 -> Refines S (header ++ body) Rin ->
+      let T := Carry2Stack.StackSrc CHUNK TAG BLOCK ks tagc dec S site_enc site_c1 site_c2 site_c3 fuel_enc in
+      let RT := Carry2Stack.Rstack_src CHUNK TAG BLOCK ks tagc (wc_comp cfg) dec header blocks nb S Rin
+                  site_enc site_c1 site_c2 site_c3 fuel_enc in
+      Refines T blocks RT /\
+      forall i0 : st S, Rin i0 (len header) ->
+        exists (x0 : st T) (ar : Src3d.ArchiveReader T),
+          Carry2Stack.stack_open_src CHUNK TAG BLOCK LIMIT ks tagc dec S site_enc site_c1 site_c2 site_c3 fuel_enc i0 = Ok x0 /\
+          RT x0 0 /\
+          src_open T x0 = Ok ar /\
+          (exists names, Src3d.list_files T ar = (ar, Ok names) /\
+             Permutation names (map fst (started 0 ops)) /\ NoDup names) /\
+          (forall name, ~ In name (map fst (started 0 ops)) ->
+             Src3d.get_file T FNMAX TS TC TA TE site_index ar name = (ar, Ok None)) /\
+          (forall name id, In (name, id) (started 0 ops) ->
+             (exists ar', Src3d.get_hash T FNMAX TS TC TA TE ar name = (ar', Ok (Some (H (pieces 0 id ops))))) /\
+             exists fi, flookup (order (w_footer (absW sf))) name = Some fi /\
+               forall sizes : nat -> N, (forall i, 0 < sizes i) ->
+               forall zf fuel F : nat, (length (pieces 0 id ops) < fuel)%nat ->
+                 (Datatypes.S zf * Datatypes.S (Datatypes.S (length (Blocks.fi_offsets fi))) <= F)%nat ->
+                 exists ar' x x',
+                   Src3d.get_file T FNMAX TS TC TA TE site_index ar name =
+                     (ar', Ok (Some (name, x, len (pieces 0 id ops)))) /\
+                   SrcTie3ReaderRT.g_read_all T FNMAX TS TC TA TE site_index F fuel x sizes 0%nat [] =
+                     (x', Ok (pieces 0 id ops)) /\
+                   Src3d.bfr_state T x' = Src3d.Finish).
+Proof. exact Carry2Archive.archive_roundtrip_src. Qed.
+
+(* non-vacuity THROUGH THE GENERATED CODE: the archive of C01_example_src_computed (translated writer), compressed
+   in blocks of 8 (identity "compression") and encrypted in chunks of 16 (toy cipher, TAG 4) by the MODEL's layer writers
+   cut at 5/0/9 and 7/30, behind a 3-byte header; opened by the translated stack and read back by the translated reader *)
+Definition c2_cfg : wconfig := mkWC true true (fun x => x) [1] [2] [] [].
+Definition c2_body : bytes :=
+  match lower_write 16 6 8 1000 (fun _ _ => toy_ks) (fun _ _ => toy_tag 4) c2_cfg [5; 0; 9] [7; 30] (Src2.dest carry_sf) with
+  | Ok b => b | _ => [] end.
+Definition c2_TS : Stream :=
+  Carry2Stack.StackSrc 16 4 8 toy_ks (toy_tag 4) (fun x => x) (Cursor ([1; 2; 3] ++ c2_body)) 0 0 0 0 0.
+Example C01_example_archive_src_computed :
+  c2_body <> [] /\
+  match Carry2Stack.stack_open_src 16 4 8 1000 toy_ks (toy_tag 4) (fun x => x) (Cursor ([1; 2; 3] ++ c2_body)) 0 0 0 0 0 3 with
+  | Ok x0 =>
+    match src_open c2_TS x0 with
+    | Ok ar =>
+      snd (Src3d.list_files c2_TS ar) = Ok [[97]; [98]] /\
+      snd (Src3d.get_hash c2_TS 48 0 1 254 255 ar [97]) = Ok (Some (carry_H [1; 2; 3; 4; 5])) /\
+      match Src3d.get_file c2_TS 48 0 1 254 255 0 ar [97] with
+      | (_, Ok (Some (_, x, sz))) =>
+        sz = 5 /\ snd (SrcTie3ReaderRT.g_read_all c2_TS 48 0 1 254 255 0 20 10 x (fun _ => 2) 0%nat []) = Ok [1; 2; 3; 4; 5]
+      | _ => False
+      end
+    | _ => False
+    end
+  | _ => False
+  end.
+Proof. split; [vm_compute; discriminate|]. vm_compute. repeat split; reflexivity. Qed.
+(* and the premises of C01_archive_roundtrip_src are met by that instance *)
+Example C01_example_archive_src_premises :
+  exists x0 ar,
+    Carry2Stack.stack_open_src 16 4 8 1000 toy_ks (toy_tag 4) (fun x => x) (Cursor ([1; 2; 3] ++ c2_body)) 0 0 0 0 0 3 = Ok x0 /\
+    src_open c2_TS x0 = Ok ar /\
+    exists ar', Src3d.get_hash c2_TS 48 0 1 254 255 ar [98] = (ar', Ok (Some (carry_H [9; 8]))).
+Proof.
+  assert (Hrun : src_wrun (LIM := Src3d.BINCODE_MAX_DESERIALIZE) 48 0 1 254 255 carry_H (fun f => f) aw0 (carry_ops ++ [OFinalize]) = (carry_sf, repeat (Ok 0) 7))
+    by (vm_compute; reflexivity).
+  destruct (C01_archive_roundtrip_src 16 4 6 8 1000 48 0 1 254 255 carry_H (fun f => f) (fun _ _ => toy_ks) (fun _ _ => toy_tag 4) (fun x => x)
+              ltac:(reflexivity) ltac:(reflexivity) ltac:(reflexivity) ltac:(vm_compute; discriminate) ltac:(reflexivity) ltac:(reflexivity)
+              ltac:(vm_compute; repeat split; discriminate) carry_H_len (fun f => Permutation_refl f)
+              c2_cfg eq_refl eq_refl (fun x => eq_refl) (len_toy_tag 4)
+              carry_ops carry_sf _ Hrun ltac:(repeat constructor) ltac:(vm_compute; reflexivity) ltac:(vm_compute; reflexivity)
+              ltac:(vm_compute; split; [discriminate | reflexivity]) ltac:(vm_compute; reflexivity) ltac:(vm_compute; reflexivity)
+              ltac:(intros j _; cbn [c2_cfg wc_comp]; unfold block_at; rewrite len_sliceN; lia)
+              [5; 0; 9] [7; 30] [1; 2; 3] 0 0 0 0 0 0%nat) as (body & Hb & Hrest).
+  assert (Hbody : body = c2_body) by (unfold c2_body; rewrite Hb; reflexivity). subst body.
+  destruct (Hrest (Cursor ([1; 2; 3] ++ c2_body)) _ ltac:(vm_compute; reflexivity) (cursor_refines _)) as [_ Hopen].
+  destruct (Hopen 3 ltac:(split; [reflexivity | vm_compute; discriminate])) as (x0 & ar & Ho & _ & Hso & _ & _ & Hf).
+  exists x0, ar. split; [exact Ho|]. split; [exact Hso|].
+  destruct (Hf [98] 1 ltac:(vm_compute; auto)) as [Hh _]. exact Hh.
+Qed.
+Print Assumptions C01_archive_roundtrip_src.
+Print Assumptions C01_example_archive_src_premises.
